@@ -1,6 +1,6 @@
 """Minecraft auto-detecting query (Java, Bedrock, legacy 1.6, 1.4, beta 1.8; one new socket per variant)."""
 
-FAMILY = dict(send_units=9, 
+FAMILY = dict(send_units=7,  # C13_minecraft_auto_send_bound: Java 3 + Bedrock 1 + three legacy variants 1 each
     name="mcauto", nargs=4, gen="mcauto", retries=3, port=0, decode_property="C03", entry="mcauto",
     describe=("all 32 subsets of variants a server speaks; variants not spoken refuse the connection or stay silent for 0-2 "
               "reads; the OPENED tag (transports of the sockets opened, in order) is compared with the implementation's trace"),
